@@ -102,6 +102,8 @@ trait DynObj {
     fn acc(&self) -> Vec<(usize, usize, u64)> {
         vec![]
     }
+    /// VecZnx / GLWE: reduce the active limb count below the allocation (max_size stays)
+    fn set_active(&mut self, _size: usize) {}
     /// number of seeds held (compressed forms), to refuse dumping an absurd vector
     fn nseeds(&self) -> usize {
         0
@@ -129,6 +131,7 @@ fn bytes128(b: &[u8]) -> Vec<i128> {
 }
 
 dyn_obj!(VecZnx<Vec<u8>>,
+    fn set_active(&mut self, size: usize) { self.size = size; }
     fn raw(&self) -> Vec<i128> {
         let mut v = vec![self.n as i128, self.cols as i128, self.size as i128, self.max_size() as i128];
         v.extend(bytes128(&self.data));
@@ -156,6 +159,7 @@ fn mat_acc(off: usize, d: &MatZnx<Vec<u8>>) -> Vec<(usize, usize, u64)> {
     vec![(off, 8, d.n() as u64), (off + 8, 8, d.size() as u64), (off + 16, 8, d.rows() as u64), (off + 24, 8, d.cols_in() as u64), (off + 32, 8, d.cols_out() as u64)]
 }
 dyn_obj!(GLWE<Vec<u8>>,
+    fn set_active(&mut self, size: usize) { self.data_mut().size = size; }
     fn acc(&self) -> Vec<(usize, usize, u64)> { let mut v = vec![(0, 4, self.base2k().0 as u64)]; v.extend(vec_acc(4, self.data())); v }
 );
 dyn_obj!(LWE<Vec<u8>>,
@@ -242,7 +246,6 @@ fn make(tcode: i128, sh: &[i128]) -> Box<dyn DynObj> {
         1 => {
             let mut o = VecZnx::alloc(u(0), u(3), u(2));
             o.fill_uniform(50, &mut src);
-            if sh[8] > 0 { o.size = u(8) - 1; }
             Box::new(o)
         }
         2 => filled!(ScalarZnx::alloc(u(0), u(3))),
@@ -250,7 +253,6 @@ fn make(tcode: i128, sh: &[i128]) -> Box<dyn DynObj> {
         10 => {
             let mut o = GLWE::alloc(n, b, k, ri);
             o.fill_uniform(50, &mut src);
-            if sh[8] > 0 { o.data_mut().size = u(8) - 1; }
             Box::new(o)
         }
         11 => filled!(LWE::alloc(n, b, k)),
@@ -299,6 +301,11 @@ fn valid_shape(tcode: i128, sh: &[i128]) -> bool {
     if sh.iter().take(9).any(|x| *x < 0) || sh[0] <= 0 { return false; }
     if tcode != 2 && sh[2] <= 0 { return false; }
     catch_unwind(AssertUnwindSafe(|| { let _ = make(tcode, sh); })).is_ok()
+}
+
+/// sh[8] (aux) of a VecZnx / GLWE: active limb count + 1, applied after the fresh dump F has been taken
+fn apply_aux(tcode: i128, sh: &[i128], o: &mut dyn DynObj) {
+    if (tcode == 1 || tcode == 10) && sh[8] > 0 { o.set_active(sh[8] as usize - 1); }
 }
 
 /// state of an object = what its own write_to emits (0 Ok, 1 Err, 2 panic; the bytes written so far)
@@ -395,10 +402,12 @@ fn exec_inner(r: &Rec) -> Out {
             if wf != 0 || f != untag(&r.vs[0]) {
                 return Err("harness: fresh dump differs from the record".into());
             }
+            apply_aux(tcode, &p[5..15], &mut *o);
             if has_pre {
                 rd(&mut *o, rk, &untag(&r.vs[1])).map_err(|e| format!("pre:{e}"))?;
             }
-            let (wb, db) = dump(&*o);
+            // the state before the call: the fresh dump when nothing was read first
+            let (wb, db) = if has_pre { dump(&*o) } else { (0, vec![]) };
             let oc = rd(&mut *o, rk, &untag(&r.vs[2]))?;
             let (wa, da) = dump(&*o);
             let acc = acc_ok(&*o, wa, &da);
@@ -435,6 +444,7 @@ fn exec_inner(r: &Rec) -> Out {
             if wf != 0 || fx != untag(&r.vs[0]) {
                 return Err("harness: fresh dump of x differs from the record".into());
             }
+            apply_aux(tcode, &p[6..16], &mut *x);
             if has_prex {
                 rd(&mut *x, rk, &untag(&r.vs[1])).map_err(|e| format!("prex:{e}"))?;
             }
@@ -443,6 +453,7 @@ fn exec_inner(r: &Rec) -> Out {
             if wf != 0 || fr != untag(&r.vs[2]) {
                 return Err("harness: fresh dump of the receiver differs from the record".into());
             }
+            apply_aux(tcode, &p[16..26], &mut *o);
             if has_prer {
                 rd(&mut *o, rk, &untag(&r.vs[3])).map_err(|e| format!("prer:{e}"))?;
             }
@@ -766,7 +777,7 @@ impl Gen {
             let lim = first_data.min(24);
             let keep: Vec<usize> = cuts.iter().cloned().filter(|c| *c <= lim).collect();
             let mut rest: Vec<usize> = cuts.iter().cloned().filter(|c| *c > lim).collect();
-            while keep.len() + rest.len() > maxcuts { let i = self.rng.below(rest.len() as u64) as usize; rest.remove(i); }
+            while keep.len() + rest.len() > maxcuts && !rest.is_empty() { let i = self.rng.below(rest.len() as u64) as usize; rest.remove(i); }
             cuts = keep; cuts.extend(rest);
         }
         for (i, c) in cuts.iter().enumerate() {
@@ -792,10 +803,13 @@ impl Gen {
         for variant in 0..nvar {
             let shx = base_shape(tcode, variant);
             let (fx, sx) = self.honest(tcode, &shx);
+            let has_aux = (tcode == 1 || tcode == 10) && shx[8] > 0;
+            let sxo: Option<&[u8]> = if has_aux { None } else { Some(&sx) };
             // the honest stream of x (fields and data random)
             let d = {
                 let mut x = make(tcode, &shx);
-                assert_eq!(rd(&mut *x, 0, &sx), Ok(0), "c18: honest stream rejected for type {tcode}");
+                apply_aux(tcode, &shx, &mut *x);
+                if !has_aux { assert_eq!(rd(&mut *x, 0, &sx), Ok(0), "c18: honest stream rejected for type {tcode}"); }
                 dump(&*x).1
             };
             let composite = tcode >= 40;
@@ -808,9 +822,9 @@ impl Gen {
                 let small = resized(tcode, &shr, -1);
                 let s0: Option<Vec<u8>> = if valid_shape(tcode, &small) && !(composite && how != 0) { Some(self.honest(tcode, &small).1) } else { None };
                 for rk in [0, 1] {
-                    self.rt_rec(tcode, rk, &shx, &fx, Some(&sx), &shr, &fr, None);
+                    self.rt_rec(tcode, rk, &shx, &fx, sxo, &shr, &fr, None);
                 }
-                if let Some(s0) = &s0 { self.rt_rec(tcode, 0, &shx, &fx, Some(&sx), &shr, &fr, Some(s0)); }
+                if let Some(s0) = &s0 { self.rt_rec(tcode, 0, &shx, &fx, sxo, &shr, &fr, Some(s0)); }
                 self.rt_rec(tcode, 2, &shx, &fx, None, &shr, &fr, None);
                 let light = matches!(tcode, 20 | 21 | 22 | 23 | 26 | 27 | 28 | 29);
                 let level: u8 = if tier == "thorough" { 2 } else if light { 0 } else if composite || variant > 0 { 1 } else { 2 };
@@ -941,6 +955,24 @@ fn supervise(inp: &str, out: &str) {
     }
 }
 
+/// `zero`: a GGSW reads a stream whose base2k resp. dsize word is 0 (accepted), then a scratch-size query is made
+fn probe_zero() {
+    use poulpy_core::api::GLWEExternalProduct;
+    use poulpy_core::layouts::GLWELayout;
+    let sh = base_shape(15, 0);
+    for (what, off) in [("base2k", 0usize), ("dsize", 4usize)] {
+        let mut g = GGSW::alloc(Degree(sh[0] as u32), Base2K(sh[1] as u32), TorusPrecision(sh[2] as u32), Rank(sh[3] as u32), Dnum(sh[5] as u32), Dsize(sh[6] as u32));
+        let mut w = Vec::new();
+        g.write_to(&mut w).unwrap();
+        put(&mut w, off, 4, 0);
+        let oc = g.read_from(&mut Cursor::new(&w[..])).is_ok();
+        let m = poulpy_verif_harness::hal::module::<poulpy_cpu_ref::FFT64Ref>(sh[0] as usize);
+        let lay = GLWELayout { n: Degree(sh[0] as u32), base2k: Base2K(8), k: TorusPrecision(24), rank: Rank(sh[3] as u32) };
+        let r = catch_unwind(AssertUnwindSafe(|| m.glwe_external_product_tmp_bytes(&lay, &lay, &g)));
+        println!("zero {what}: read_from ok={oc}; glwe_external_product_tmp_bytes -> {:?}", r.map_err(panic_class));
+    }
+}
+
 fn main() {
     if std::env::var("C18_TRACE").is_err() { std::panic::set_hook(Box::new(|_| {})); }
     let args: Vec<String> = std::env::args().collect();
@@ -960,6 +992,7 @@ fn main() {
         "exec" => supervise(&args[2], &args[3]),
         "worker" => worker(&args[2], &args[3], args[4].parse().unwrap()),
         "probe" => probe(&args),
+        "zero" => probe_zero(),
         _ => {
             eprintln!("usage: c18 gen <tier> <seed> <out> | exec <in> <out> | probe <tcode> <seed_len>");
             std::process::exit(2);
